@@ -78,8 +78,11 @@ impl Validator for SimCidFormat {
     }
 }
 
+/// `ENABLED` decides whether the endpoint answers unattributable packets with stateless resets
+/// (the library default is disabled). Servers enable it; clients do not, which also rules out
+/// the reset ping-pong of RFC 9000 10.3.3 being multiplied by a duplicating network.
 #[derive(Debug)]
-pub struct SimTokenGen {
+pub struct SimTokenGen<const ENABLED: bool> {
     pub key: u64,
 }
 
@@ -93,14 +96,14 @@ pub fn reset_token_for(key: u64, cid: &[u8]) -> [u8; 16] {
     t
 }
 
-impl stateless_reset::token::Generator for SimTokenGen {
-    const ENABLED: bool = true;
+impl<const E: bool> stateless_reset::token::Generator for SimTokenGen<E> {
+    const ENABLED: bool = E;
     fn generate(&mut self, local_connection_id: &[u8]) -> stateless_reset::Token {
         reset_token_for(self.key, local_connection_id).into()
     }
 }
 
-impl s2n_quic::provider::stateless_reset_token::Provider for SimTokenGen {
+impl<const E: bool> s2n_quic::provider::stateless_reset_token::Provider for SimTokenGen<E> {
     type Generator = Self;
     type Error = core::convert::Infallible;
     fn start(self) -> Result<Self, Self::Error> {
